@@ -35,7 +35,7 @@ def main():
         h = m.get("history", "")
         first = (
             "harness error; check corrected" if "HARNESS" in h
-            else "missed; check strengthened" if h.startswith("first run: NOT caught")
+            else "missed; check strengthened" if h.startswith("first run: NOT caught") or h.startswith("predicted miss")
             else "not a violation of the statement as read (left open)" if h.startswith("NOT caught, deliberately") or h.startswith("NOT caught, not claimed")
             else "missed by its own check, caught by another" if h.startswith("NOT caught by")
             else "caught"
